@@ -243,6 +243,10 @@ impl PropCheck for C15 {
     fn case_from_json(&self, v: &Value) -> Result<Case, String> {
         serde_json::from_value(v["case"].clone()).map_err(|e| e.to_string())
     }
+
+    fn owns_case(&self, v: &Value) -> bool {
+        v["garbage_sweep"].as_bool() != Some(true)
+    }
 }
 
 pub fn eval_case(c: &Case) -> Outcome {
@@ -323,6 +327,132 @@ pub fn eval_case(c: &Case) -> Outcome {
     out
 }
 
+// ---------------------------------------------------------------------------------------------------------------
+// garbage sweep: a complete expression token put after a complete sub-expression, at every nesting level
+
+/// `§` marks the end of a complete sub-expression
+const GARBAGE_SKELETONS: &[&str] = &[
+    "a§", "a.b§", "a[0§]§", "f(a§, b§)§", "[a§, b§]§", "[...a§]§", "[...a§, b§]", "{ k: a§ }§", "{ k§ }", "{ k§, j: b }", "{ ...a§ }§", "{ ...a§, k: b§ }", "{ k: b, ...a§ }", "(a§)§", "a ? b§ : c§", "!a§", "a + b§", "'s'§", "1§",
+    "a.b[c§].d§", "f()§", "[[a§]§]",
+];
+/// the same for the comma-separated fields of `<template data>`
+const GARBAGE_DATA_SKELETONS: &[&str] = &["...a§", "k: a§", "k§", "k§, j", "...a§, ...b§", "k: a§, ...b§", "...a§, k: b"];
+const GARBAGE: &[&str] = &["extra", "1", "'s'", "...b", "x.y"];
+
+#[derive(Clone, Debug, Serialize, Deserialize)]
+pub struct GarbageCase {
+    /// 0 attribute value, 1 text, 2 template data
+    pub ctx: u8,
+    pub skeleton: usize,
+    pub point: usize,
+    pub garbage: usize,
+    pub garbage_sweep: bool,
+}
+
+pub struct C15Garbage;
+
+impl GarbageCase {
+    /// (the expression text, the template source)
+    pub fn texts(&self) -> Option<(String, String)> {
+        let sk = if self.ctx == 2 { GARBAGE_DATA_SKELETONS.get(self.skeleton)? } else { GARBAGE_SKELETONS.get(self.skeleton)? };
+        let parts: Vec<&str> = sk.split('§').collect();
+        if self.point + 1 >= parts.len() {
+            return None;
+        }
+        let mut e = String::new();
+        for (i, p) in parts.iter().enumerate() {
+            e.push_str(p);
+            if i == self.point {
+                e.push(' ');
+                e.push_str(GARBAGE.get(self.garbage)?);
+                e.push(' ');
+            }
+        }
+        let src = match self.ctx {
+            0 => format!("<v a=\"{{{{ {} }}}}\"/>", e),
+            1 => format!("<v>{{{{ {} }}}}</v>", e),
+            _ => format!("<template name=\"t\">x</template><template is=\"t\" data=\"{{{{ {} }}}}\"/>", e),
+        };
+        Some((e, src))
+    }
+}
+
+pub fn garbage_cases() -> Vec<GarbageCase> {
+    let mut out = vec![];
+    for ctx in 0..3u8 {
+        let sks = if ctx == 2 { GARBAGE_DATA_SKELETONS } else { GARBAGE_SKELETONS };
+        for (si, sk) in sks.iter().enumerate() {
+            for point in 0..sk.matches('§').count() {
+                for g in 0..GARBAGE.len() {
+                    out.push(GarbageCase { ctx, skeleton: si, point, garbage: g, garbage_sweep: true });
+                }
+            }
+        }
+    }
+    out
+}
+
+impl PropCheck for C15Garbage {
+    type Case = GarbageCase;
+
+    fn strategy(&self) -> BoxedStrategy<GarbageCase> {
+        let all = garbage_cases();
+        (0..all.len()).prop_map(move |i| all[i].clone()).boxed()
+    }
+
+    fn eval(&self, w: Option<&mut Worker>, cases: &[GarbageCase]) -> Result<Vec<Outcome>, String> {
+        let w = w.ok_or("no worker")?;
+        let texts: Vec<Option<(String, String)>> = cases.iter().map(|c| c.texts()).collect();
+        // the expression grammar of templates is a subset of JavaScript's: what V8 rejects is no template expression either
+        let codes: Vec<String> = cases.iter().zip(texts.iter()).map(|(c, t)| match t { Some((e, _)) => if c.ctx == 2 { format!("({{ {} }})", e) } else { format!("({})", e) }, None => "0".into() }).collect();
+        let resp = w.request(&json!({"kind":"syntax","codes":codes})).map_err(|e| e.0)?;
+        let mut outs = vec![];
+        for (i, c) in cases.iter().enumerate() {
+            let mut out = Outcome::default();
+            let Some((e, src)) = &texts[i] else {
+                outs.push(out);
+                continue;
+            };
+            let invalid = !resp["results"][i]["sloppy"].is_null();
+            out.labels.push(format!("garbage:{}", if invalid { "js-invalid" } else { "js-valid (not judged)" }));
+            out.labels.push(format!("garbage-ctx:{}", ["attribute", "text", "template-data"][c.ctx as usize % 3]));
+            out.sample = Some(json!({"source": src}));
+            if invalid {
+                out.units = 1;
+                out.nt.push(fnv64(src.as_bytes()));
+                match diags_of("p", src, &[]) {
+                    Ok(d) => {
+                        let max = d.iter().map(|x| x.level).max().unwrap_or(0);
+                        if max < 3 {
+                            out.failures.push(Failure {
+                                sig: format!("C15|garbage-not-flagged|{}", ["attribute", "text", "template-data"][c.ctx as usize % 3]),
+                                tag: None,
+                                what: format!("`{}` put after a complete sub-expression is answered with no diagnostic at Error level or above (highest level {}): binding {{{{ {} }}}} ; source {:?}", GARBAGE[c.garbage], max, e, src),
+                                detail: json!({"source": src, "diagnostics": d.iter().map(|x| format!("{} (level {})", x.kind, x.level)).collect::<Vec<_>>()}),
+                            });
+                        }
+                    }
+                    Err(p) => out.failures.push(Failure { sig: format!("C15|garbage|panic|{}", short_hash(&p)), tag: None, what: format!("compiler panicked: {} on {:?}", p, src), detail: json!({"source": src}) }),
+                }
+            }
+            outs.push(out);
+        }
+        Ok(outs)
+    }
+
+    fn case_json(&self, case: &GarbageCase) -> Value {
+        json!({"case": serde_json::to_value(case).unwrap(), "source": case.texts().map(|t| t.1), "garbage_sweep": true})
+    }
+
+    fn case_from_json(&self, v: &Value) -> Result<GarbageCase, String> {
+        serde_json::from_value(v["case"].clone()).map_err(|e| e.to_string())
+    }
+
+    fn owns_case(&self, v: &Value) -> bool {
+        v["garbage_sweep"].as_bool() == Some(true)
+    }
+}
+
 pub fn run(tier: Tier, seed: u64, findings: &Findings) -> i32 {
     let started = Instant::now();
     let cfg = RunCfg { prop: "C15", tier, seed };
@@ -337,6 +467,11 @@ pub fn run(tier: Tier, seed: u64, findings: &Findings) -> i32 {
     r.extra.insert("location_stream_cases".into(), json!(r.evaluations));
     report.merge(r);
     super::fuzz_stage::replay_regress("tmpl_positions", "C15", &mut report);
+    // garbage after a complete sub-expression at every nesting level (exhaustive over the listed skeletons)
+    report.merge(super::run_regress(&C15Garbage, &cfg, findings));
+    let mut r = engine::run_explicit(&C15Garbage, &cfg, garbage_cases(), 16, 4, findings);
+    r.extra.insert("garbage_sweep_cases".into(), json!(r.evaluations));
+    report.merge(r);
     engine::finish(
         Finish {
             cfg,
@@ -355,6 +490,9 @@ pub fn run(tier: Tier, seed: u64, findings: &Findings) -> i32 {
 }
 
 pub fn replay(v: &Value, path: &str, findings: &Findings) -> i32 {
+    if v["case"]["garbage_sweep"].as_bool() == Some(true) {
+        return super::replay_generic(&C15Garbage, "C15", v, path, findings);
+    }
     if v["case"]["case"].get("input").is_some() {
         let loc = c01::C01 { cfg: gen::wxml::WxmlCfg::new(2, 3), locations: true, prop: "C15" };
         return super::replay_generic(&loc, "C15", v, path, findings);
